@@ -9,6 +9,8 @@
 //	                               (formulas.go, formulas_specs.go; these load only the packages they translate)
 //	go2coq DispatchTable -repo <path>  the modifier manager's listener dispatch (pkg/engine/modifier/listener.go) as a
 //	                               first-order table: Subscribe wiring, walks, gates, callbacks (dispatch.go)
+//	go2coq HandlersTable -repo <path>  Subscribe / Emit of the four event handlers (pkg/engine/event/handler) and
+//	                               logging.Log / InitLoggers as a first-order table (handlers.go)
 //
 // It loads every package under ./pkg, ./internal and ./cmd of the repository with full type
 // information (golang.org/x/tools/go/packages; test files and files excluded by build
@@ -67,6 +69,8 @@ func main() {
 		fmt.Print(genFormulas(root, gen))
 	case "Dispatch", "DispatchTable":
 		fmt.Print(genDispatch(root))
+	case "Handlers", "HandlersTable":
+		fmt.Print(genHandlers(root))
 	default:
 		die("unknown generator %q", gen)
 	}
